@@ -1,8 +1,168 @@
 (* Properties/C16.v — C16: raft messages arrive as sent through the stream codecs.
-   Only property theorems (closed by [exact]) and non-vacuity examples. *)
-From ZV Require Import Common.Bytes Stream.Consts Stream.Proto Stream.Model Stream.Proofs.
+   Only property theorems (closed by [exact]) and non-vacuity examples / witnesses.
+
+   Model: Stream/Proto.v (byte-exact gogo-protobuf layer of raftpb), Stream/Model.v (msgappv2 and
+   plain message codecs, io.ReadFull framing). A stream is a list of bytes; [v2_run local remote s]
+   is the reader loop of streamReader.decodeLoop on the bytes s: the messages delivered and the error
+   that ends the loop. [v2_seq_ok local remote st0 ms] is the well-formedness premise, a boolean
+   predicate: fields are values of their Go types; relative to the encoder context it meets, a
+   heartbeat-shaped message is THE link heartbeat, a message that continues the context is a MsgApp of
+   the context's groups (From/To = the groups' replica ids, same names, no snapshot / reject /
+   reject hint / context, node ids = the two ends of the stream), and frames respect the decoder's
+   size limit. *)
+From ZV Require Import Common.Bytes Stream.Consts Stream.Proto Stream.Model Stream.ProofsProto Stream.Proofs Stream.Examples.
 Open Scope N_scope.
 
-Theorem C16_be64_length : forall v, length (be64 v) = 8%nat.
-Proof. exact (be_enc_length 8). Qed.
-Print Assumptions C16_be64_length.
+(* (1) msgappv2: every well-formed sequence, of any number of interleaved raft groups, is read back
+       as the same sequence, field for field, followed by a clean EOF *)
+Theorem C16_v2_roundtrip : forall local remote ms,
+  v2_seq_ok local remote st0 ms = true ->
+  v2_run local remote (v2_encode_all st0 ms) = (ms, DEof).
+Proof. exact v2_roundtrip. Qed.
+Print Assumptions C16_v2_roundtrip.
+
+(* (2) the coupling invariant behind (1): after the stream both sides hold the same
+       {term, index, FromGroup, ToGroup} context *)
+Theorem C16_v2_coupling : forall local remote ms,
+  v2_seq_ok local remote st0 ms = true ->
+  v2_dec_state (S (length (v2_encode_all st0 ms))) local remote st0 (v2_encode_all st0 ms) = v2_enc_state st0 ms.
+Proof. exact v2_coupling_run. Qed.
+Print Assumptions C16_v2_coupling.
+
+(* (3) truncation, for ARBITRARY byte streams (valid, corrupted, anything): the reader run on a prefix
+       p of a stream p ++ q delivers a prefix of what it delivers on p ++ q and then stops with an
+       EOF-class error — or behaves exactly as on p ++ q. It never delivers a different message. *)
+Theorem C16_v2_truncation : forall local remote p q,
+  exists j, fst (v2_run local remote p) = firstn j (fst (v2_run local remote (p ++ q))) /\
+            (eof_like (snd (v2_run local remote p)) \/ v2_run local remote p = v2_run local remote (p ++ q)).
+Proof. exact v2_truncation. Qed.
+Print Assumptions C16_v2_truncation.
+
+(* (4) (1) + (3): every truncation of the encoding of a well-formed sequence yields a prefix of the
+       sequence and then EOF / unexpected EOF *)
+Theorem C16_v2_truncated_wf : forall local remote ms p q,
+  v2_seq_ok local remote st0 ms = true -> v2_encode_all st0 ms = p ++ q ->
+  exists j, fst (v2_run local remote p) = firstn j ms /\ eof_like (snd (v2_run local remote p)).
+Proof. exact v2_truncated_wf. Qed.
+Print Assumptions C16_v2_truncated_wf.
+
+(* (5) the plain codec: all message types, arbitrary field values, up to the decoder's size limit *)
+Theorem C16_plain_roundtrip : forall ms,
+  plain_seq_ok ms = true -> plain_run (plain_encode_all ms) = (ms, DEof).
+Proof. exact plain_roundtrip. Qed.
+Print Assumptions C16_plain_roundtrip.
+
+Theorem C16_plain_truncation : forall p q,
+  exists j, fst (plain_run p) = firstn j (fst (plain_run (p ++ q))) /\
+            (eof_like (snd (plain_run p)) \/ plain_run p = plain_run (p ++ q)).
+Proof. exact plain_truncation. Qed.
+Print Assumptions C16_plain_truncation.
+
+Theorem C16_plain_truncated_wf : forall ms p q,
+  plain_seq_ok ms = true -> plain_encode_all ms = p ++ q ->
+  exists j, fst (plain_run p) = firstn j ms /\ eof_like (snd (plain_run p)).
+Proof. exact plain_truncated_wf. Qed.
+Print Assumptions C16_plain_truncated_wf.
+
+(* (6) no byte stream makes the msgappv2 reader panic (length prefixes are checked against the limit
+       before any make()), and the model's fuel is never exhausted *)
+Theorem C16_v2_no_panic : forall local remote s,
+  snd (v2_run local remote s) <> DPanic /\ snd (v2_run local remote s) <> DFuel.
+Proof. exact v2_run_no_panic. Qed.
+Print Assumptions C16_v2_no_panic.
+
+(* (7) underneath: protobuf and varint round trips, Size() = length of the marshalled bytes *)
+Theorem C16_message_roundtrip : forall m, msg_ok m = true -> msg_unmarshal (msg_marshal m) = Ok m.
+Proof. exact msg_rt. Qed.
+Print Assumptions C16_message_roundtrip.
+
+Theorem C16_entry_roundtrip : forall e, entry_ok e = true -> entry_size e < two63 ->
+  entry_unmarshal (entry_marshal e) = Ok e.
+Proof. exact entry_rt. Qed.
+Print Assumptions C16_entry_roundtrip.
+
+Theorem C16_message_size : forall m, len (msg_marshal m) = msg_size m.
+Proof. exact msg_size_ok. Qed.
+Print Assumptions C16_message_size.
+
+Theorem C16_varint_roundtrip : forall v rest, v < two64 -> varint_dec (varint_enc v ++ rest) = Ok (v, rest).
+Proof. exact varint_rt. Qed.
+Print Assumptions C16_varint_roundtrip.
+
+Theorem C16_frame_step : forall local remote st m rest,
+  v2_msg_ok local remote st m = true ->
+  v2_decode local remote st (v2_frame st m ++ rest) = DOk (m, v2_next st m, rest).
+Proof. exact v2_frame_rt. Qed.
+Print Assumptions C16_frame_step.
+
+(* ---------- non-vacuity: realistic sequences satisfy the premise, and use every frame kind ---------- *)
+Example C16_ex_seq_wf : v2_seq_ok 2 1 st0 ex_seq = true.
+Proof. vm_compute. reflexivity. Qed.
+(* frame kinds of ex_seq: full, compact, compact, heartbeat, full, compact, full *)
+Example C16_ex_seq_frames :
+  let fix kinds st ms := match ms with [] => [] | m :: r => hd 99 (v2_frame st m) :: kinds (v2_next st m) r end in
+  kinds st0 ex_seq = [2; 1; 1; 0; 2; 1; 2].
+Proof. vm_compute. reflexivity. Qed.
+Example C16_ex_seq_roundtrip : v2_run 2 1 (v2_encode_all st0 ex_seq) = (ex_seq, DEof).
+Proof. vm_compute. reflexivity. Qed.
+Example C16_ex_plain_wf : plain_seq_ok ex_plain = true.
+Proof. vm_compute. reflexivity. Qed.
+Example C16_ex_plain_roundtrip : plain_run (plain_encode_all ex_plain) = (ex_plain, DEof).
+Proof. vm_compute. reflexivity. Qed.
+(* a truncated stream: 5 bytes into the second frame *)
+Example C16_ex_truncated :
+  v2_run 2 1 (firstn (length (v2_frame st0 exA1) + 5) (v2_encode_all st0 ex_seq)) = ([exA1], DUnexpEof).
+Proof. vm_compute. reflexivity. Qed.
+
+(* ---------- what happens when a clause of the premise is dropped (each message below satisfies every
+   range condition; the sequences are replayed on the Go code from corpus/C16/witnesses.tsv) ---------- *)
+Definition unconditional_roundtrip : Prop :=
+  forall local remote ms, forallb msg_ok ms = true -> fst (v2_run local remote (v2_encode_all st0 ms)) = ms.
+
+(* From <> FromGroup.RaftReplicaId in a message that continues the context: From is rewritten *)
+Theorem C16_unconditional_refuted : ~ unconditional_roundtrip.
+Proof.
+  intro H. specialize (H 2 1 [exA1; bad_from] ltac:(vm_compute; reflexivity)).
+  vm_compute in H. discriminate H.
+Qed.
+Print Assumptions C16_unconditional_refuted.
+
+Theorem C16_from_clause_refuted :
+  exists ms, forallb msg_ok ms = true /\
+    fst (v2_run 2 1 (v2_encode_all st0 ms)) = [exA1; exA2] /\ ms <> [exA1; exA2].
+Proof. exists [exA1; bad_from]. split; [vm_compute; reflexivity|]. split; [vm_compute; reflexivity|vm_compute; discriminate]. Qed.
+Print Assumptions C16_from_clause_refuted.
+
+(* a non-MsgApp message that satisfies isContinue comes out as a MsgApp (peer.pick never puts one on this stream) *)
+Theorem C16_type_clause_refuted :
+  exists ms, forallb msg_ok ms = true /\
+    fst (v2_run 2 1 (v2_encode_all st0 ms)) = [exA1; exA2] /\ ms <> [exA1; exA2].
+Proof. exists [exA1; bad_type]. split; [vm_compute; reflexivity|]. split; [vm_compute; reflexivity|vm_compute; discriminate]. Qed.
+Print Assumptions C16_type_clause_refuted.
+
+(* isSameGroup ignores Group.Name: a group with the same ids and another name gets the context's name *)
+Theorem C16_name_clause_refuted :
+  exists ms, forallb msg_ok ms = true /\
+    fst (v2_run 2 1 (v2_encode_all st0 ms)) = [exA1; exA2] /\ ms <> [exA1; exA2].
+Proof. exists [exA1; bad_name]. split; [vm_compute; reflexivity|]. split; [vm_compute; reflexivity|vm_compute; discriminate]. Qed.
+Print Assumptions C16_name_clause_refuted.
+
+(* context bytes / reject on a continuing MsgApp are dropped *)
+Theorem C16_context_clause_refuted :
+  exists ms, forallb msg_ok ms = true /\
+    fst (v2_run 2 1 (v2_encode_all st0 ms)) = [exA1; exA2] /\ ms <> [exA1; exA2].
+Proof. exists [exA1; bad_ctx]. split; [vm_compute; reflexivity|]. split; [vm_compute; reflexivity|vm_compute; discriminate]. Qed.
+Print Assumptions C16_context_clause_refuted.
+
+(* a heartbeat-shaped message (Type=MsgHeartbeat, From=To=0) with a payload collapses to the link heartbeat *)
+Theorem C16_heartbeat_clause_refuted :
+  exists ms, forallb msg_ok ms = true /\
+    fst (v2_run 2 1 (v2_encode_all st0 ms)) = [link_heartbeat] /\ ms <> [link_heartbeat].
+Proof. exists [bad_hb]. split; [vm_compute; reflexivity|]. split; [vm_compute; reflexivity|vm_compute; discriminate]. Qed.
+Print Assumptions C16_heartbeat_clause_refuted.
+
+(* the decoder on a node that is not the groups' destination refuses the compact form (an error, not a message) *)
+Theorem C16_node_clause_refuted :
+  v2_run 3 1 (v2_encode_all st0 [exA1; exA2]) = ([exA1], DMismatch).
+Proof. vm_compute. reflexivity. Qed.
+Print Assumptions C16_node_clause_refuted.
